@@ -1,4 +1,5 @@
 import GqlProofs.Validate.OverlapSound
+import GqlProofs.Validate.OverlapWitness
 /-
   C08 — validation accepts exactly what the rules allow: the part about
   OverlappingFieldsCanBeMerged (the repaired algorithm: `sameValue` compares children, R8g;
@@ -131,7 +132,31 @@ theorem C08_overlap_sameArguments_spec (as bs : List Argument) : sameArguments a
 theorem C08_overlap_sameValue_spec (v1 v2 : Value) : sameValue v1 v2 = true ↔ ValSame v1 v2 :=
   sameValue_iff v1 v2
 
+/-- The "differing arguments" branch never fires on two argument lists with the same text
+    (argument by argument, equal up to source positions) whose object literals have pairwise distinct
+    field names (which UniqueInputFieldNames demands): identical fields are never reported. -/
+theorem C08_overlap_identical_arguments_accepted (as bs : List Argument)
+    (hu : ∀ a ∈ as, UniqueFields a.value)
+    (he : as.map (fun a => (a.name, eraseV a.value)) = bs.map (fun b => (b.name, eraseV b.value))) :
+    sameArguments as bs = true :=
+  sameArguments_of_erase_eq as bs hu he
+
+/-- non-vacuity, kernel-checked: `{ a: id a: u { id } }` is rejected with exactly this error … -/
+example : validate [overlappingFieldsCanBeMerged] OverlapWitness.schema OverlapWitness.docDifferent =
+    .ok [{ rule := str "OverlappingFieldsCanBeMerged",
+           msg := str "Fields \"a\" conflict because \"id\" and \"u\" are different fields. Use different aliases on the fields to fetch both if this was intentional.",
+           locs := [(1, 9)] }] := by
+  decide +kernel
+
+/-- … and `{ u { a: id } u { a: x } }` with a nested conflict -/
+example : validate [overlappingFieldsCanBeMerged] OverlapWitness.schema OverlapWitness.docNested =
+    .ok [{ rule := str "OverlappingFieldsCanBeMerged",
+           msg := str "Fields \"u\" conflict because subfields \"a\" conflict because \"id\" and \"x\" are different fields. Use different aliases on the fields to fetch both if this was intentional.",
+           locs := [(1, 15)] }] := by
+  decide +kernel
+
 #print axioms C08_overlap_sound_partial
+#print axioms C08_overlap_identical_arguments_accepted
 #print axioms C08_overlap_errors_sound
 #print axioms C08_overlap_different_fields_sound
 #print axioms C08_overlap_differing_arguments_sound
